@@ -39,6 +39,9 @@ def main():
     try:
         mod = importlib.import_module(f"rules.{pid.lower()}")
         idx = Index()
+        if idx.renames:
+            rep.stats["private_renames_recovered"] = [f"{sc}: {cur} -> {ref} (use-site similarity {s})" for sc, cur, ref, s in idx.renames]
+            print(f"note: {len(idx.renames)} renamed private name(s) mapped back to the reference names: " + ", ".join(f"{sc}.{cur}->{ref}" for sc, cur, ref, s in idx.renames))
         mod.run(idx, rep, a.tier)
         rc = rep.finish()
     except AnalysisError as e:
